@@ -60,6 +60,7 @@ func genLegacy(t *rapid.T) []legacyOp {
 
 func genC17(t *rapid.T) c17Case {
 	cfg := c04Cfg()
+	cfg.Huge = false // cases travel to a control process
 	c := c17Case{TV: genTV(cfg)(t)}
 	v2 := core.GenStructVal(t, cfg, c.S)
 	e := fullEdit
